@@ -134,16 +134,20 @@ let parse_case id main files stddir =
 let emit_case id main files stddir =
   match FrontModel.parse_main (env_of files stddir) (bytes_of_hex main) with
   | FrontModel.POk (body, _, _) ->
-      let b = (match BashConv.emit_bash body with
-               | Transpile.TOk (script, _) -> "ok:" ^ hex_of_bytes script
-               | Transpile.TErr -> "err"
-               | Transpile.TPanic -> "panic") in
-      let w = (match BatchConv.emit_batch body with
-               | Transpile.TOk (script, _) -> "ok:" ^ hex_of_bytes script
-               | Transpile.TErr -> "err"
-               | Transpile.TPanic -> "panic") in
-      Printf.printf "emit %s bash=%s batch=%s\n" id b w
-  | FrontModel.PErr -> Printf.printf "emit %s bash=err batch=err\n" id
+      let (b, bsyn) = (match BashConv.emit_bash body with
+               | Transpile.TOk (script, st) ->
+                   ("ok:" ^ hex_of_bytes script,
+                    if BashSyntax.well_formed (Stdlib.List.append st.BashConv.b_start st.BashConv.b_code) then "ok" else "bad")
+               | Transpile.TErr -> ("err", "-")
+               | Transpile.TPanic -> ("panic", "-")) in
+      let (w, wsyn) = (match BatchConv.emit_batch body with
+               | Transpile.TOk (script, st) ->
+                   ("ok:" ^ hex_of_bytes script, if BatchSyntax.batch_wf (BatchSyntax.batch_lines st) then "ok" else "bad")
+               | Transpile.TErr -> ("err", "-")
+               | Transpile.TPanic -> ("panic", "-")) in
+      Printf.printf "emit %s bash=%s batch=%s bashsyntax=%s batchsyntax=%s emits=%s\n" id b w bsyn wsyn
+        (if BashFacts.emits_all body then "1" else "0")
+  | FrontModel.PErr -> Printf.printf "emit %s bash=err batch=err bashsyntax=- batchsyntax=-\n" id
   | FrontModel.PFuel -> Printf.printf "emit %s bash=fuel batch=fuel\n" id
 
 (* ---- reference semantics on the model's AST ---- *)
